@@ -37,23 +37,35 @@ func extWriteUnitRes(o *Toks, panicked bool, err error) {
 	}
 }
 
-// c17.X.m: Marshal(v); if ok, Unmarshal of the result into a receiver holding prev.
+// extRender is the token string of a value: what it "reports" through its exported fields.
+func extRender[V any](cd extCodec[V], v V) string {
+	var t Toks
+	cd.write(&t, v)
+	return t.String()
+}
+
+// c17.X.m: Marshal(v); if ok, Unmarshal of the result into a receiver holding prev.  The caller
+// then keeps the decoded value (a struct copy of the receiver, as `got := recv` does) while the SAME
+// receiver decodes the encoding of the next value of the stream; the last observation token says
+// whether the kept value still reports what it reported when it was decoded.
 func extGenMarshal[V any](cd extCodec[V]) func(x *Ctx) {
 	return func(x *Ctx) {
 		cd.values(x, func(v V) {
 			x.Case(func(c *Case) {
 				prev := cd.randVal(c.R)
+				next := cd.randVal(c.R)
 				cd.write(&c.I, v)
 				cd.write(&c.I, prev)
+				cd.write(&c.I, next)
 				var out []byte
 				var err error
 				if try(func() { out, err = cd.marshal(v) }) {
-					c.O.Panic().None()
+					c.O.Panic().None().Bool(true)
 					c.Tag("marshal-panic")
 					return
 				}
 				if err != nil {
-					c.O.Err("other").None()
+					c.O.Err("other").None().Bool(true)
 					c.Tag("marshal-err")
 					c.Trivial()
 					return
@@ -66,6 +78,16 @@ func extGenMarshal[V any](cd extCodec[V]) func(x *Ctx) {
 				c.O.Some()
 				extWriteUnitRes(&c.O, p, uerr)
 				cd.write(&c.O, recv)
+				// deferred observation of the decoded value
+				got := recv
+				reported := extRender(cd, got)
+				try(func() {
+					if nb, nerr := cd.marshal(next); nerr == nil {
+						_ = cd.unmarshal(&recv, nb)
+						c.Tag("receiver-decodes-next-value")
+					}
+				})
+				c.O.Bool(extRender(cd, got) == reported)
 			})
 		})
 	}
@@ -80,16 +102,36 @@ func extGenUnmarshal[V any](cd extCodec[V]) func(x *Ctx) {
 				cd.write(&c.I, prev)
 				c.I.BytesList(hist)
 				c.I.Bytes(raw)
+				// The receiver starts as a struct copy of prev (`recv := prev`).  After every earlier
+				// decode that succeeded the caller keeps what was decoded (a struct copy of the receiver)
+				// and what it reports; after the decode under test the kept values are read again.
+				prevReported := extRender(cd, prev)
 				recv := prev
+				var kept []V
+				var reported []string
 				for _, h := range hist {
 					h := h
-					try(func() { _ = cd.unmarshal(&recv, h) })
+					var herr error
+					if try(func() { herr = cd.unmarshal(&recv, h) }) || herr != nil {
+						continue // nothing was decoded
+					}
+					kept = append(kept, recv)
+					reported = append(reported, extRender(cd, recv))
 				}
 				in := cloneBytes(raw)
 				var err error
 				p := try(func() { err = cd.unmarshal(&recv, in) })
 				extWriteUnitRes(&c.O, p, err)
 				cd.write(&c.O, recv)
+				earlierSame := true
+				for i := range kept {
+					if extRender(cd, kept[i]) != reported[i] {
+						earlierSame = false
+					}
+				}
+				// <earlier decoded values still report what they reported> <so does the value the
+				// receiver was built from>
+				c.O.Bool(earlierSame).Bool(extRender(cd, prev) == prevReported)
 				switch {
 				case len(raw) < cd.size:
 					c.Tag("short")
@@ -371,15 +413,11 @@ var extAbsCaptureCodec = extCodec[rtp.AbsCaptureTimeExtension]{
 		}
 	},
 	marshal: func(v rtp.AbsCaptureTimeExtension) ([]byte, error) { return v.Marshal() },
-	unmarshal: func(r *rtp.AbsCaptureTimeExtension, b []byte) error {
-		// the receiver gets a private copy of the pointee so that cases cannot influence each other
-		if r.EstimatedCaptureClockOffset != nil {
-			o := *r.EstimatedCaptureClockOffset
-			r.EstimatedCaptureClockOffset = &o
-		}
-		return r.Unmarshal(b)
-	},
-	randVal: extRandCapture,
+	// no private copy of the pointee here: values are built per case (randVal, values), and whether a
+	// decode writes through a pointer the receiver shares with a value the caller still holds is part
+	// of what the kinds observe
+	unmarshal: func(r *rtp.AbsCaptureTimeExtension, b []byte) error { return r.Unmarshal(b) },
+	randVal:   extRandCapture,
 	values: func(x *Ctx, emit func(rtp.AbsCaptureTimeExtension)) {
 		for _, t := range extEdge64 {
 			emit(rtp.AbsCaptureTimeExtension{Timestamp: t})
@@ -482,6 +520,31 @@ func extInstant(r *Rand) (int64, string) {
 	}
 }
 
+// extDrawOffset draws a capture clock offset (ns) of magnitude below 2^31 s (a few land one or two ns
+// beyond the bound), concentrated on whole seconds, small values, the bound and exact fractions.
+func extDrawOffset(r *Rand) int64 {
+	var d int64
+	switch r.Intn(7) {
+	case 0: // whole seconds and their neighbours
+		d = int64(r.U64()%(1<<31))*extNsPerS + int64(r.Range(-2, 2))
+	case 1: // small
+		d = int64(r.U64() % uint64(r.Pick(10, 1000, 1000000, 2000000000)))
+	case 2: // near the bound
+		d = extMaxOffset - 1 - int64(r.U64()%uint64(r.Pick(3, 1000, 2000000000)))
+	case 3: // exactly representable fractions
+		d = int64(r.U64()%(1<<31))*extNsPerS + int64(r.Intn(512))*1953125
+	default: // uniform over the range, and log-uniform
+		d = int64(r.U64() % uint64(extMaxOffset))
+		if r.Bool() {
+			d >>= uint(r.Intn(62))
+		}
+	}
+	if r.Bool() {
+		d = -d
+	}
+	return d
+}
+
 func extClampInstant(t int64) int64 {
 	if t < 0 {
 		return 0
@@ -579,12 +642,29 @@ func init() {
 		}
 	})
 
-	// c18.offset <t> <d> => ok <Timestamp> <raw offset> <duration> <opt duration via the wire>
+	// c18.offset <t> <d> <holder> => ok <Timestamp> <raw offset> <duration> <opt duration via the wire> <opt holder's duration afterwards>
+	//   holder = none: the wire form is decoded by a zero-value receiver;
+	//   holder = some <how> <d2>: somebody holds an extension h2 with offset d2 and the receiver that decodes
+	//   the wire form shares its history — how=0: the receiver is a struct copy of
+	//   NewAbsCaptureTimeExtensionWithCaptureClockOffset(t, d2) (h2 is that extension); how=1: the receiver
+	//   has decoded the wire form of that extension before and h2 is the struct copy the caller took of it
+	//   then.  After the decode under test h2's EstimatedCaptureClockOffsetDuration is read (again).
 	register("c18.offset", "C18", func(x *Ctx) {
 		one := func(mk func(c *Case) (int64, int64)) {
 			x.Case(func(c *Case) {
 				t, d := mk(c)
 				c.I.I64(t).I64(d)
+				how, d2 := -1, int64(0)
+				if c.R.Chance(1, 2) {
+					how, d2 = c.R.Intn(2), extDrawOffset(c.R)
+					if c.R.Chance(1, 16) {
+						d2 = int64(c.R.U64()) // anything, mostly out of range: correspondence only
+					}
+					c.I.Some().Nat(how).I64(d2)
+					c.Tag("receiver-shares-history-with-a-held-extension")
+				} else {
+					c.I.None()
+				}
 				if d <= -extMaxOffset || d >= extMaxOffset {
 					c.Tag("offset-out-of-range")
 					c.Trivial()
@@ -595,7 +675,7 @@ func init() {
 				}
 				var ts uint64
 				var raw, back int64
-				var wire *time.Duration
+				var wire, held *time.Duration
 				if try(func() {
 					e := rtp.NewAbsCaptureTimeExtensionWithCaptureClockOffset(time.Unix(0, t), time.Duration(d))
 					ts = e.Timestamp
@@ -605,20 +685,40 @@ func init() {
 					if err != nil {
 						panic(err)
 					}
-					var r rtp.AbsCaptureTimeExtension
+					var r, h2 rtp.AbsCaptureTimeExtension
+					switch how {
+					case 0:
+						e2 := rtp.NewAbsCaptureTimeExtensionWithCaptureClockOffset(time.Unix(0, t), time.Duration(d2))
+						h2 = *e2
+						r = *e2
+					case 1:
+						b2, err := rtp.NewAbsCaptureTimeExtensionWithCaptureClockOffset(time.Unix(0, t), time.Duration(d2)).Marshal()
+						if err != nil {
+							panic(err)
+						}
+						if err := r.Unmarshal(b2); err != nil {
+							panic(err)
+						}
+						h2 = r
+					}
 					if err := r.Unmarshal(b); err != nil {
 						panic(err)
 					}
 					wire = r.EstimatedCaptureClockOffsetDuration()
+					if how >= 0 {
+						held = h2.EstimatedCaptureClockOffsetDuration()
+					}
 				}) {
 					c.O.Panic()
 					return
 				}
 				c.O.Ok().U64(ts).I64(raw).I64(back)
-				if wire == nil {
-					c.O.None()
-				} else {
-					c.O.Some().I64(int64(*wire))
+				for _, p := range []*time.Duration{wire, held} {
+					if p == nil {
+						c.O.None()
+					} else {
+						c.O.Some().I64(int64(*p))
+					}
 				}
 			})
 		}
@@ -633,28 +733,10 @@ func init() {
 		for i, n := 0, x.N(60000, 3000000); i < n; i++ {
 			one(func(c *Case) (int64, int64) {
 				t, _ := extInstant(c.R)
-				var d int64
-				switch c.R.Intn(8) {
-				case 0: // whole seconds and their neighbours
-					d = int64(c.R.U64()%(1<<31))*extNsPerS + int64(c.R.Range(-2, 2))
-				case 1: // small
-					d = int64(c.R.U64() % uint64(c.R.Pick(10, 1000, 1000000, 2000000000)))
-				case 2: // near the bound
-					d = extMaxOffset - 1 - int64(c.R.U64()%uint64(c.R.Pick(3, 1000, 2000000000)))
-				case 3: // anything, mostly out of range
+				if c.R.Intn(8) == 0 { // anything, mostly out of range
 					return extClampInstant(t), int64(c.R.U64())
-				case 4: // exactly representable fractions
-					d = int64(c.R.U64()%(1<<31))*extNsPerS + int64(c.R.Intn(512))*1953125
-				default: // uniform over the range, and log-uniform
-					d = int64(c.R.U64() % uint64(extMaxOffset))
-					if c.R.Bool() {
-						d >>= uint(c.R.Intn(62))
-					}
 				}
-				if c.R.Bool() {
-					d = -d
-				}
-				return extClampInstant(t), d
+				return extClampInstant(t), extDrawOffset(c.R)
 			})
 		}
 	})
